@@ -291,7 +291,7 @@ pub fn small_valid() -> Vec<u8> {
     [f_varint(1, 8), f_len(2, b"vf"), f_len(7, &graph), f_len(8, &f_varint(2, 18)), f_len(14, &[f_len(1, b"a"), f_len(2, b"b")].concat())].concat()
 }
 
-pub fn generate(seed: u64, n: usize, tier: &str, out: &mut impl Write) {
+pub fn generate(seed: u64, n: usize, tier: &str, skip: &str, out: &mut impl Write) {
     let thorough = tier == "thorough";
     let mut rng = SplitMix64(seed);
     emit(out, "empty", &[]);
@@ -357,6 +357,9 @@ pub fn generate(seed: u64, n: usize, tier: &str, out: &mut impl Write) {
     }
     // every wire type on every field number 0..22 of every message type
     for (ty, path) in PATHS.iter().enumerate() {
+        if skip.contains("dispatch") {
+            break;
+        }
         for number in 0..23u64 {
             for wire in 0..8u64 {
                 let mut f = tag(number, wire);
